@@ -31,11 +31,14 @@ def main():
     no_suite = "--no-suite" in args
     checks = [prop]
     tier = "quick"
+    base = "HEAD"
     for i, a in enumerate(args):
         if a == "--checks":
             checks = args[i + 1].split(",")
         if a == "--tier":
             tier = args[i + 1]
+        if a == "--base":          # the commit of /repo the change was written against (when it no longer applies to HEAD)
+            base = args[i + 1]
     name = f"{prop}-{k}"
     wt = Path(f"/tmp/sc-{name}")
     out = ROOT / "seeded" / name
@@ -62,7 +65,11 @@ def main():
         meta["previous_runs"].append(dict(at=prev.get("at"), repo_head=prev.get("repo_head"), caught_by=prev.get("caught_by"),
                                           verdicts={c_: dict(exit=v_["exit"], lines=v_["lines"][-3:]) for c_, v_ in prev["verdicts"].items()}))
     sh(["git", "-C", "/repo", "worktree", "remove", "--force", str(wt)])
-    r = sh(["git", "-C", "/repo", "worktree", "add", "--detach", str(wt), "HEAD"])
+    r = sh(["git", "-C", "/repo", "worktree", "add", "--detach", str(wt), base])
+    if base != "HEAD":
+        meta["base"] = base
+        meta["base_note"] = ("the change no longer applies to /repo HEAD (a later fix: commit rewrote the same lines); it is applied to "
+                             "the commit it was written against, so the checks also report the defects repaired since then")
     assert r.returncode == 0, r.stderr
     try:
         env = dict(os.environ, PYTHONPATH=f"{wt}/src", PYTHONDONTWRITEBYTECODE="1")
